@@ -155,8 +155,39 @@ def scenario_primary_change(cmds):
 
 FAILOVER_CMDS = ["set a 1", "remove a", "increment n", "resolve 7 t a 1 z", "snapshot false", "create-user u1 pw", "set-permissions u1 rw a*", "create-db d3 tk3", "set-safe a 0 x"]
 
+ARBITER_CMDS = ["set k 1", "set-safe k 0 x", "set-safe k 0 stale", "set-safe k 7 jump", "set j 1", "set-safe j 0 y", "remove k", "increment n", "get-safe k"]
+
+def scenario_arbiter(k, arb_node):
+    """a database with the ARBITER strategy whose arbiter client is connected to node `arb_node` (the primary or a secondary): a versioned write
+    that conflicts — also with its own copy coming back from the primary — registers the conflict under a key of its own, which is replicated
+    like any write; the burst of every command must still end. Only the termination clause is applied here (the bounded bursts of the conflict
+    path carry the registry key next to the write, as the recorded resolve findings describe); the model runs in lockstep."""
+    def fn(net, rng):
+        if not setup(net, k, rng): return [Failure("cluster-does-not-form", f"{k} nodes")]
+        net.cmd(1, 1, "create-db ta tka arbiter")
+        if net.quiesce(rng, 300) is None: return [Failure("no-quiescence", "create-db")]
+        for i in range(1, k + 1): net.cmd(i, 1, "use-db ta tka")
+        net.op(arb_node, "SESS 3"); net.cmd(arb_node, 3, "use-db ta tka"); net.cmd(arb_node, 3, "arbiter")
+        if net.quiesce(rng, 300) is None: return [Failure("no-quiescence", "arbiter registration")]
+        sizes = {}
+        for node in range(1, k + 1):
+            for cmd in ARBITER_CMDS:
+                t0 = len(net.trace)
+                net.cmd(node, 1, cmd)
+                n = net.quiesce(rng, 200, max_line=20000)     # (lines on the clean tree: a few hundred bytes)
+                role = "primary" if node == 1 else "secondary"
+                if n is None:
+                    burst = net.trace[t0:]
+                    return [Failure(f"self-sustaining-exchange:arbiter-database:{cmd.split(' ')[0]}@{role}", f"{cmd!r} on n{node} of {k}, arbiter client on n{arb_node}: still exchanging messages after 200 deliveries (or a message in flight grew beyond 20000 bytes); last {[(b[0], b[1], b[2], b[3][:60]) for b in burst[-4:]]}")]
+                sizes[(cmd, role)] = len(net.trace) - t0
+        net.worst = sizes
+        return []
+    return fn
+
 def scenarios(tier):
     S = []
+    for k in (2, 3):
+        for arb in (1, 2): S.append((f"k{k}-arbiter-database-arbiter-on-n{arb}", scenario_arbiter(k, arb)))
     for k in (2, 3):
         chunks = [COMMANDS[i::4] for i in range(4)] if tier == "quick" else ([COMMANDS[i::2] for i in range(2)] + [list(reversed(COMMANDS))]) * 4
         for j, ch in enumerate(chunks):
@@ -170,6 +201,7 @@ def scenarios(tier):
 
 RULE = ("every client-visible command (41 command lines covering all request kinds a client can send, accepted and refused, including resolve, snapshot, create-user, set-permissions, increment, remove and the replicate-* / ack / election commands "
         "sent by a client) issued on every node (in the first-operations scenarios from the very first operation after the cluster formed, nothing unmeasured in between; and, in one scenario, on the two survivors after the primary died and a new one was elected) of 2- and 3-node clusters of real nodes; after each command messages are delivered in a seeded-random FIFO-respecting order with a budget of 200 deliveries (the bound is 1 + 2(k-1) + replies): "
+        "and on a database with the ARBITER strategy with the arbiter client on the primary / on a secondary (termination clause only: every burst ends); "
         "the burst must end, with at most one forward to the primary, one copy per secondary, one acknowledgement per copy, no message between two secondaries. Every primitive operation also runs on the Lean model in lockstep. distinct by trace hash")
 
 def main(tier, seed):
